@@ -823,6 +823,9 @@ impl Axecutor {
         // envp[0] = NULL
         stack_layout.push(0);
 
+        // The entry frame (plus alignment padding) lives above the requested stack space
+        let frame_size = (stack_layout.len() as u64) * 8 + 48;
+
         let mut stack_start: u64 = 0x1000;
         loop {
             if stack_start >= 0x7fff_ffff_ffff_ffff {
@@ -832,11 +835,7 @@ impl Axecutor {
             }
 
             if self
-                .mem_init_zero_named(
-                    stack_start,
-                    length + (stack_layout.len() as u64) * 8,
-                    "Stack".to_string(),
-                )
+                .mem_init_zero_named(stack_start, length + frame_size, "Stack".to_string())
                 .is_ok()
             {
                 break;
@@ -846,7 +845,7 @@ impl Axecutor {
 
         // TODO: auxiliary vector
         // Make sure the stack is aligned to 16 bytes
-        let mut stack_top = (stack_start + length - 16) & !0xf;
+        let mut stack_top = (stack_start + length + frame_size - 16) & !0xf;
         if stack_layout.len() % 2 == 1 {
             // However, if we push an uneven amount of 64 bit values, we need to adjust
             stack_top -= 8;
